@@ -12,6 +12,7 @@ mod fsx;
 mod model;
 mod sdk;
 mod props;
+mod recser;
 mod sigref;
 mod svc;
 mod xmlcodec;
